@@ -235,7 +235,7 @@ class Evaluator:
         self.stats = {'forks': 0, 'calls_resolved': 0, 'calls_unresolved': 0, 'inlined': 0}
 
     # ------------------------------------------------------------------- entry
-    def run(self, fi, args=None, context=None, state=None, depth=0, closure=None):
+    def run(self, fi, args=None, context=None, state=None, depth=0, closure=None, inherit=None):
         """Return the list of Exit (return/raise) of function `fi`.
         args: formal -> term (missing formals become symbols or their default);
         context: formal -> python literal (fixes literal-mode parameters)."""
@@ -246,6 +246,8 @@ class Evaluator:
             # variables of the enclosing function (read-only view for a nested function inlined from its parent)
             for k, v in closure.items():
                 st.env['closure:' + k] = v
+        if inherit:
+            st.env.update(inherit)      # attribute values of the same object, known to the caller
         args = dict(args or {})
         for f in fi.all_formals():
             if context and f in context:
@@ -326,8 +328,36 @@ class Evaluator:
                     s2 = self._assign(tgt, t, s2, mod, fi, depth, ln)
                     # object identity: `a = b` makes a and b the same object until one of them is rebound
                     for n in ast.walk(tgt):
-                        if isinstance(n, ast.Name):
+                        if isinstance(n, ast.Name) and isinstance(n.ctx, ast.Store):
+                            # the name is re-bound (x[i] = v leaves x bound to the same object)
                             s2.alias.pop(n.id, None)
+                            s2.alias.pop('view:' + n.id, None)
+                            s2.alias.pop('viewparent:' + n.id, None)
+                    pairs_ = []
+                    if isinstance(tgt, ast.Name):
+                        pairs_ = [(tgt, s.value)]
+                    elif isinstance(tgt, (ast.Tuple, ast.List)) and isinstance(s.value, (ast.Tuple, ast.List)) \
+                            and len(tgt.elts) == len(s.value.elts):
+                        pairs_ = [(a_, b_) for a_, b_ in zip(tgt.elts, s.value.elts) if isinstance(a_, ast.Name)]
+                    for tn_, ve_ in pairs_:
+                        # a numpy view of another local (basic slicing, new axes, reshape, .T, ...): stores through it
+                        # change that local's array too; a plain copy of the name in a tuple assignment is an alias
+                        vr = ve_.id if (isinstance(ve_, ast.Name) and tn_ is not tgt) else _view_root(ve_)
+                        if vr is None:
+                            # X[:, i, j] with i, j loop counters is a view as well
+                            vr = _view_root(ve_, allow_names=True)
+                            if vr is not None:
+                                idx_names = {n_.id for sub_ in ast.walk(ve_) if isinstance(sub_, ast.Subscript)
+                                             for n_ in ast.walk(sub_.slice) if isinstance(n_, ast.Name)}
+                                for nm_ in idx_names:
+                                    v_ = s2.env.get(nm_)
+                                    ok_ = v_ is not None and ((is_c(v_) and isinstance(v_[1], int)) or
+                                                              (v_[0] == 's' and 'range' in s2.facts.get(v_[1], {})))
+                                    if not ok_:
+                                        vr = None
+                        if vr is not None and vr != tn_.id and vr in s2.env:
+                            s2.alias['view:' + tn_.id] = s2.alias.get('view:' + vr, vr)
+                            s2.alias['viewparent:' + tn_.id] = vr
                     if isinstance(tgt, ast.Name) and isinstance(s.value, ast.Name) and s.value.id in s2.env:
                         g = s2.alias.get(s.value.id)
                         if g is None:
@@ -452,10 +482,71 @@ class Evaluator:
     def _modified(self, stmts, fi=None):
         names = self._modified0(stmts)
         if fi is not None:
+            names |= self._modified_by_callees(stmts, fi)
+        # views created inside the statements: a store through `v` (v = P[...]) also changes P
+        parent = {}
+        for s_ in stmts:
+            for n in ast.walk(s_):
+                if isinstance(n, ast.Assign) and len(n.targets) == 1 and isinstance(n.targets[0], ast.Name):
+                    r = _view_root(n.value, allow_names=True)
+                    if r is not None and r != n.targets[0].id:
+                        parent[n.targets[0].id] = r
+        if parent:
+            stored = set()
+            for s_ in stmts:
+                for n in ast.walk(s_):
+                    if isinstance(n, ast.Subscript) and isinstance(n.ctx, (ast.Store, ast.Del)):
+                        k = _root_name(n)
+                        if k:
+                            stored.add(k)
+                    elif isinstance(n, ast.AugAssign) and isinstance(n.target, ast.Name):
+                        stored.add(n.target.id)
+            for k in stored:
+                seen_ = set()
+                while k in parent and k not in seen_:
+                    seen_.add(k)
+                    k = parent[k]
+                    names.add(k)
+        if fi is not None:
             # `np.append(...)` is a library call, not a mutation of a variable called np
             aliases = set(fi.module.imports) - set(fi.local_names())
             names -= aliases
         return names
+
+    def _modified_by_callees(self, stmts, fi):
+        """Local arrays handed (directly or as a basic-index view) to a repository function that updates that
+        parameter in place (summaries of the mutation analysis)."""
+        out = set()
+        calls = [n for s_ in stmts for n in ast.walk(s_) if isinstance(n, ast.Call)]
+        if not calls:
+            return out
+        ma = self.__dict__.get('_mutana')
+        if ma is None:
+            from .effects import MutationAnalysis
+            ma = self.__dict__['_mutana'] = MutationAnalysis(self.P)
+        for c in calls:
+            try:
+                ca = self.P.resolve_callee(fi.module, fi, c.func)
+            except Exception:
+                continue
+            f = getattr(ca, 'func', None)
+            if ca is None or ca.kind != 'repo' or f is None:
+                continue
+            try:
+                mp = ma.mutated_params(f)
+            except Exception:
+                continue
+            if not mp:
+                continue
+            formals = [x for x in f.params if x not in ('self', 'cls')]
+            pairs = list(zip(formals, c.args)) + [(k.arg, k.value) for k in c.keywords if k.arg]
+            for formal, a in pairs:
+                if formal not in mp:
+                    continue
+                r = a.id if isinstance(a, ast.Name) else _view_root(a, allow_names=True)
+                if r:
+                    out.add(r)
+        return out
 
     def _modified0(self, stmts):
         names = set()
@@ -530,6 +621,8 @@ class Evaluator:
         ln = s.lineno
         tag = 'L%d' % ln
         modified = self._modified(s.body, fi)
+        modified |= {st.alias['view:' + n_] for n_ in modified if ('view:' + n_) in st.alias}
+        modified |= {st.alias['viewparent:' + n_] for n_ in modified if ('viewparent:' + n_) in st.alias}
 
         broke_all = []
 
@@ -645,11 +738,14 @@ class Evaluator:
     def _for(self, s, st, fi, depth):
         mod = fi.module
         ln = s.lineno
-        tag = 'F%d' % ln
+        tag = 'F%d' % ln + ('' if not getattr(s, '_synthetic_level', 0) else 'n%d' % s._synthetic_level)
         res = []
         # for v in itertools.count(k): body   ==   c = k; while True: v = c; c += 1; body
         # (an unbounded counting loop left by break / return: evaluated like the flag-controlled while loops, with
         # the first iteration peeled)
+        nested = self._nested_for(s, fi)
+        if nested is not None:
+            return self._for(nested, st, fi, depth)
         sy = synth_count_loop(self.P, fi, s)
         if sy is not None:
             init, loop = sy
@@ -666,6 +762,8 @@ class Evaluator:
                 res.extend(self._for_unrolled(s, s1, items, fi, depth))
                 continue
             modified = self._modified(s.body, fi) | {n.id for n in ast.walk(s.target) if isinstance(n, ast.Name)}
+            modified |= {s1.alias['view:' + n_] for n_ in modified if ('view:' + n_) in s1.alias}
+            modified |= {s1.alias['viewparent:' + n_] for n_ in modified if ('viewparent:' + n_) in s1.alias}
             entry_env = dict(s1.env)
             head = self._havoc(s1, modified, s.body, tag)
             pair = _neighbour_pairs(it)
@@ -724,6 +822,69 @@ class Evaluator:
                 a2.loops.append(LoopSummary(s, 'for', var, it, body_states, head_env, entry_env))
                 res.append(Exit('fall', None, a2))
         return res
+
+    def _nested_for(self, s, fi):
+        """for a, b in itertools.product(R1, R2): body   ==   for a in R1: for b in R2: body
+        for a, b in np.ndindex(n, m) / np.ndindex(*A.shape[:2]) likewise with ranges.  Only when the body has no
+        `break` of its own (a break would leave one loop instead of all) and no `else` clause."""
+        cache = self.__dict__.setdefault('_nested_cache', {})
+        if id(s) in cache:
+            return cache[id(s)]
+        cache[id(s)] = None
+        if s.orelse or not isinstance(s.target, (ast.Tuple, ast.List)) or not isinstance(s.iter, ast.Call):
+            return None
+        if any(isinstance(e, ast.Starred) for e in s.target.elts):
+            return None
+        try:
+            d = self.P.resolve(fi.module, s.iter.func, fi)
+        except Exception:
+            d = None
+        n = len(s.target.elts)
+        iters = None
+        if d == 'itertools.product' and not s.iter.keywords and len(s.iter.args) == n and n >= 2 \
+                and not any(isinstance(a, ast.Starred) for a in s.iter.args):
+            iters = list(s.iter.args)
+        elif d == 'numpy.ndindex' and not s.iter.keywords:
+            args = list(s.iter.args)
+            if len(args) == n and not any(isinstance(a, ast.Starred) for a in args):
+                iters = [ast.Call(func=ast.Name(id='range', ctx=ast.Load()), args=[a], keywords=[]) for a in args]
+            elif len(args) == 1 and isinstance(args[0], ast.Starred):
+                # np.ndindex(*X.shape) with a target of n names: X is n-dimensional on this path
+                shp = args[0].value
+                iters = [ast.Call(func=ast.Name(id='range', ctx=ast.Load()),
+                                  args=[ast.Subscript(value=shp, slice=ast.Constant(value=k), ctx=ast.Load())], keywords=[])
+                         for k in range(n)]
+        if iters is None:
+            return None
+
+        def own_break(nodes):
+            for x in nodes:
+                if isinstance(x, ast.Break):
+                    return True
+                if isinstance(x, (ast.For, ast.While, ast.FunctionDef, ast.Lambda)):
+                    continue
+                if own_break(list(ast.iter_child_nodes(x))):
+                    return True
+            return False
+        if own_break(s.body):
+            return None
+        body = s.body
+        node = None
+        for tgt, it in reversed(list(zip(s.target.elts, iters))):
+            node = ast.For(target=tgt, iter=it, body=body, orelse=[], type_comment=None)
+            ast.copy_location(node, s)
+            ast.fix_missing_locations(node)
+            body = [node]
+        # distinct line tags for the synthetic inner loops (loop symbols are named after the line)
+        k = 0
+        cur = node
+        while isinstance(cur, ast.For) and cur is not None:
+            cur.lineno = s.lineno + (0 if k == 0 else 0)
+            cur._synthetic_level = k
+            k += 1
+            cur = cur.body[0] if len(cur.body) == 1 and isinstance(cur.body[0], ast.For) and getattr(cur.body[0], 'target', None) in s.target.elts else None
+        cache[id(s)] = node
+        return node
 
     def _for_unrolled(self, s, st, items, fi, depth):
         """Concrete unrolling of `for target in <literal sequence>`."""
@@ -847,6 +1008,19 @@ class Evaluator:
                     st.env[key] = ('list', tuple(items))
                 else:
                     st.env[key] = ('setitem', bt, it, t)
+                root = st.alias.get('view:' + key)
+                if root is not None and root in st.env:
+                    parent = st.alias.get('viewparent:' + key)
+                    done_parent = False
+                    if parent is not None and parent in st.env and bt[0] == 'sub' and st.env[parent] == bt[1] \
+                            and it in (C(Ellipsis), ('slice', NONE, NONE, NONE)):
+                        # v = P[idx0]; v[...] = t   is   P[idx0] = t
+                        st.env[parent] = ('setitem', bt[1], bt[2], t)
+                        st.effects.append(('setitem', bt[1], bt[2], t, ln, parent))
+                        done_parent = True
+                    if not (done_parent and parent == root):
+                        st.env[root] = ('setitem', st.env[root], ('viewidx', C(key), it), t)
+                    st.trace.append('%d:store through the view %s also changes %s' % (ln, key, root))
             return st
         if isinstance(tgt, ast.Attribute):
             outs = self._ev(tgt.value, st, mod, fi, depth)
@@ -1363,6 +1537,15 @@ class Evaluator:
 
     def _apply(self, e, callee, bt, is_method, pos, kws, st, mod, fi, depth):
         ln = e.lineno
+        # expand *[literal sequence] / *[one-element comprehension results folded to a literal]
+        if any(x[0] == 'starred' and x[1][0] in ('list', 'tuple') for x in pos):
+            pos2 = []
+            for x in pos:
+                if x[0] == 'starred' and x[1][0] in ('list', 'tuple'):
+                    pos2.extend(x[1][1])
+                else:
+                    pos2.append(x)
+            pos = pos2
         # expand **{literal dict}
         kws2 = []
         for name, t in kws:
@@ -1488,11 +1671,49 @@ class Evaluator:
             closure = None
             if f.parent is not None and fi is not None and (f.parent is fi):
                 closure = {k: v for k, v in saved_env.items() if not k.startswith('closure:')}
-            exits = self.run(f, args=bound, state=sub, depth=depth + 1, closure=closure)
+            inherit = None
+            same_self = bool(getattr(f, 'is_method', False)) and isinstance(e.func, ast.Attribute) \
+                and isinstance(e.func.value, ast.Name) and e.func.value.id == 'self'
+            if same_self:
+                inherit = {k_: v_ for k_, v_ in saved_env.items() if k_.startswith('self.')}
+            exits = self.run(f, args=bound, state=sub, depth=depth + 1, closure=closure, inherit=inherit)
             for x in exits:
                 s2 = x.state
+                callee_env = s2.env
                 s2.env = dict(saved_env)
                 s2.alias = dict(saved_alias)
+                # attribute stores made by a helper method on the same object (self.x = ... inside self._helper()) are
+                # visible to the caller afterwards
+                if same_self:
+                    for k_, v_ in callee_env.items():
+                        if k_.startswith('self.') and saved_env.get(k_) != v_:
+                            s2.env[k_] = v_
+                # an array handed to the helper and updated there in place (element stores, in-place methods, also
+                # inside its loops) is updated for the caller too: every caller variable holding that argument now
+                # holds the updated value
+                for formal, argt in bound.items():
+                    if not isinstance(argt, tuple) or is_c(argt):
+                        continue
+                    newv = callee_env.get(formal)
+                    if newv is None or newv == argt:
+                        continue
+                    if _inplace_update_of(newv, argt, s2.loops):
+                        hit = False
+                        for name_, val_ in list(s2.env.items()):
+                            if val_ == argt:
+                                s2.env[name_] = newv
+                                hit = True
+                        if not hit and argt[0] == 'sub' and _basic_index_term(argt[2]):
+                            # the argument is a view X[idx] of a caller array: X[idx] now holds the updated elements
+                            for name_, val_ in list(s2.env.items()):
+                                if val_ == argt[1] and not name_.startswith('closure:'):
+                                    content = newv
+                                    if newv[0] == 'setitem' and newv[1] == argt and newv[2] in (
+                                            ('slice', NONE, NONE, NONE), C(Ellipsis)):
+                                        content = newv[3]       # v[:] = e  replaces the whole view: X[idx] = e
+                                    s2.env[name_] = ('setitem', val_, argt[2], content)
+                                    s2.effects.append(('setitem', val_, argt[2], content, ln, name_))
+                                    s2.trace.append('%d:%s updates its argument, a view of %s, in place' % (ln, f.name, name_))
                 s2.trace.append('%d:<- %s' % (ln, f.name))
                 out.append((x.value, s2, 'raise' if x.kind == 'raise' else 'ok'))
             if len(out) > 1:
@@ -1695,6 +1916,97 @@ def _neighbour_pairs(it):
                 and a[2] == ('slice', C(None), C(-1), C(None)) and b[2] == ('slice', C(1), C(None), C(None)):
             return a[1]
     return None
+
+
+VIEW_METHODS = {'reshape', 'view', 'squeeze', 'swapaxes', 'transpose', 'ravel'}
+VIEW_FUNCS = {'atleast_1d', 'atleast_2d', 'atleast_3d', 'expand_dims', 'squeeze', 'reshape', 'asarray', 'asanyarray',
+              'transpose', 'swapaxes', 'moveaxis', 'ravel', 'broadcast_to'}
+
+
+def _view_root(e, allow_names=False):
+    """Name of the local variable `e` is a numpy view of (basic indexing, new axes, reshape, .T, np.expand_dims, ...;
+    also `v if c else x` with both arms views of / the same variable); None when e is not such an expression."""
+    def root(x, top):
+        if isinstance(x, ast.Name):
+            return None if top else x.id
+        if isinstance(x, ast.Subscript):
+            def basic(i):
+                if isinstance(i, ast.Tuple):
+                    return all(basic(j) for j in i.elts)
+                if isinstance(i, ast.Slice):
+                    return True
+                if isinstance(i, ast.Constant):
+                    return i.value is None or i.value is Ellipsis or (isinstance(i.value, int) and not isinstance(i.value, bool))
+                if isinstance(i, ast.Attribute) and i.attr == 'newaxis':
+                    return True
+                if isinstance(i, ast.UnaryOp) and isinstance(i.op, ast.USub) and isinstance(i.operand, ast.Constant):
+                    return True
+                if allow_names and isinstance(i, ast.Name):
+                    return True         # an index variable (over-approximation: used only to widen modified sets)
+                return False
+            return root(x.value, False) if basic(x.slice) else None
+        if isinstance(x, ast.Attribute) and x.attr == 'T':
+            return root(x.value, False)
+        if isinstance(x, ast.Call) and isinstance(x.func, ast.Attribute):
+            if x.func.attr in VIEW_METHODS and not isinstance(x.func.value, ast.Name):
+                return root(x.func.value, False)
+            if x.func.attr in VIEW_METHODS and isinstance(x.func.value, ast.Name) and x.func.value.id not in ('np', 'numpy'):
+                return x.func.value.id
+            if x.func.attr in VIEW_FUNCS and isinstance(x.func.value, ast.Name) and x.func.value.id in ('np', 'numpy') and x.args:
+                return root(x.args[0], False)
+        if isinstance(x, ast.IfExp):
+            a, b = root(x.body, False), root(x.orelse, False)
+            return a if a is not None and a == b else None
+        return None
+    return root(e, True)
+
+
+def _basic_index_term(idx):
+    """slices / integers / loop variables / None / Ellipsis only: numpy returns a view"""
+    items = idx[1] if idx[0] == 'tuple' else (idx,)
+    for it in items:
+        if it[0] == 'slice' or it[0] in ('s', 'bv') or (is_c(it) and (it[1] is None or it[1] is Ellipsis or isinstance(it[1], int))):
+            continue
+        return False
+    return True
+
+
+def _inplace_update_of(newv, argt, loops, depth=0):
+    """Is `newv` the object `argt` after in-place updates (x[i] = v, x.sort(), ... possibly inside loops)?"""
+    if depth > 12:
+        return False
+    if newv == argt:
+        return True
+    if newv[0] == 'setitem':
+        return _inplace_update_of(newv[1], argt, loops, depth + 1)
+    if newv[0] == 'mut':
+        return _inplace_update_of(newv[2], argt, loops, depth + 1)
+    if newv[0] == 's' and '@F' in newv[1]:
+        # a loop-carried variable: in place if it entered the loop as the argument (or an in-place update of it) and
+        # every value it takes in the body is an in-place update of the loop head
+        name = newv[1].split('@')[0]
+        tag = newv[1].split('@')[1]
+        if tag.endswith('post'):
+            tag = tag[:-4]
+        stack = list(loops)
+        seen = set()
+        while stack:
+            ls = stack.pop()
+            if id(ls) in seen:
+                continue
+            seen.add(id(ls))
+            for kind, b in ls.body_states:
+                stack.extend(b.loops)
+            head = ls.head_env.get(name)
+            if head is None or head[0] != 's' or head[1] != '%s@%s' % (name, tag):
+                continue
+            ent = ls.entry_env.get(name)
+            if ent is None or not _inplace_update_of(ent, argt, loops, depth + 1):
+                return False
+            vals = [b.env.get(name) for kind, b in ls.body_states if b.env.get(name) is not None]
+            return bool(vals) and all(_inplace_update_of(v, head, loops, depth + 1) for v in vals)
+        return False
+    return False
 
 
 def _mk_sub(base, idx):
